@@ -223,10 +223,27 @@ _PKI = {}
 
 
 def pki(node_id, curve_name='p256', which=0):
-    ''' (CA certificate, end-entity certificate naming ``node_id`` as bundle EID, end-entity private key); cached. '''
+    ''' (CA certificate, end-entity certificate naming ``node_id`` as bundle EID, end-entity private key) from the
+    committed fixture file (fixed test keys: runs do not depend on fresh key material). '''
     key = (node_id, curve_name, which)
     if key in _PKI:
         return _PKI[key]
+    import json
+    import os
+    from cryptography import x509
+    from cryptography.hazmat.primitives import serialization
+    path = os.path.join(os.path.dirname(os.path.dirname(os.path.abspath(__file__))), 'fixtures', 'pki.json')
+    entry = json.load(open(path))['%s-%d' % (curve_name, which)]
+    if entry['node_id'] != node_id:
+        raise ValueError('fixture PKI names %s' % entry['node_id'])
+    _PKI[key] = (x509.load_pem_x509_certificate(entry['ca'].encode()), x509.load_pem_x509_certificate(entry['ee'].encode()),
+                 serialization.load_pem_private_key(entry['ee_key'].encode(), None))
+    return _PKI[key]
+
+
+def generate_pki(node_id, curve_name='p256', which=0):
+    ''' How fixtures/pki.json was made. '''
+    key = (node_id, curve_name, which)
     import datetime
     from cryptography import x509
     from cryptography.hazmat.primitives import hashes
